@@ -82,6 +82,13 @@ func PairSetup(tr Transport, c *Controller, code string, entropy []byte) (*Setup
 
 // PairVerify runs M1..M4 as a conformant controller and returns the shared secret.
 func PairVerify(tr Transport, c *Controller, accLTPK []byte, entropy []byte) ([]byte, error) {
+	return PairVerifyAs(tr, c, accLTPK, "", entropy)
+}
+
+// PairVerifyAs is PairVerify for a controller that looks the accessory up by the pairing identifier it
+// learnt in pair-setup M6 (HAP 5.7.2: "use the accessory's Pairing Identifier to look up the accessory's
+// long-term public key in its list of paired accessories; if not found, abort"): accID == "" skips the look-up.
+func PairVerifyAs(tr Transport, c *Controller, accLTPK []byte, accID string, entropy []byte) ([]byte, error) {
 	v := NewVerifyState(entropy)
 	r, err := tr.Do("POST", "/pair-verify", ContentTLV8, VerifyM1(v.EphPublic))
 	if err != nil {
@@ -96,6 +103,9 @@ func PairVerify(tr Transport, c *Controller, accLTPK []byte, entropy []byte) ([]
 	}
 	if m2.HasError || m2.State != 2 {
 		return nil, fmt.Errorf("verify M2: state %d error %d", m2.State, m2.ErrorCode)
+	}
+	if accID != "" && m2.AccID != accID {
+		return nil, fmt.Errorf("verify M2 names the accessory %q, pair-setup M6 paired the controller with %q: no long-term key is stored for that pairing identifier", m2.AccID, accID)
 	}
 	r, err = tr.Do("POST", "/pair-verify", ContentTLV8, VerifyM3(v.Key, v.VerifyM3Plain(c)))
 	if err != nil {
@@ -116,7 +126,12 @@ func PairVerify(tr Transport, c *Controller, accLTPK []byte, entropy []byte) ([]
 
 // VerifyAndSecure runs pair-verify on a TCP client and switches it to the encrypted session.
 func VerifyAndSecure(cl *Client, c *Controller, accLTPK []byte, entropy []byte) error {
-	shared, err := PairVerify(cl, c, accLTPK, entropy)
+	return VerifyAndSecureAs(cl, c, accLTPK, "", entropy)
+}
+
+// VerifyAndSecureAs is VerifyAndSecure with the pairing-identifier look-up of PairVerifyAs.
+func VerifyAndSecureAs(cl *Client, c *Controller, accLTPK []byte, accID string, entropy []byte) error {
+	shared, err := PairVerifyAs(cl, c, accLTPK, accID, entropy)
 	if err != nil {
 		return err
 	}
